@@ -199,7 +199,16 @@ register("C01", title="replica determinism", engine="irc-history-engine",
          floor={"quick": 5000, "thorough": 100000},
          technique="differential replay of generated histories on K instances and 2 processes",
          level_text="divergence between executions of the same history is observed directly; a dependence on map order over n>=2 elements shows with probability >= 1-2^-(K-1) per occurrence")
-irc_engine("C15", "one well-formed line", ENGINE_RULE, cases={"quick": 250, "thorough": 5000}, children={"quick": 16, "thorough": 16})
+register("C15", title="one well-formed line", engine="irc-history-engine",
+         parts=[{"pkg": "./internal/ircserver", "test": "^TestVerifIRC$", "children": {"quick": 12, "thorough": 16}, "cases": {"quick": 250, "thorough": 5000}},
+                {"pkg": ".", "test": "^TestVerifC15HTTP$", "children": {"quick": 4, "thorough": 16}, "cases": {"quick": 2, "thorough": 12}}],
+         timeout={"quick": 400, "thorough": 2400}, level="exploration",
+         rule=ENGINE_RULE + "; every output line of every entry is judged (<=510 bytes, no CR/LF/NUL, [':' prefix ' '] command head, prefix on relayed lines). "
+              "HTTP layer: an in-process node receives POST bodies whose Data holds control characters in every position class, 2 kB and multi-byte text, "
+              "raw JSON escapes (\\u000d, \\u0000, lone surrogates), embedded forged lines, and DELETE bodies with the same in Quitmessage; every line "
+              "a second session in the channel reads back over GET /messages is judged by the same oracle",
+         floor={"quick": 5000, "thorough": 100000},
+         technique="line-grammar monitor over every delivered line: state-machine replies and the HTTP read-back path")
 register("C03", title="serialization is complete", engine="irc-history-engine", pkg="./internal/ircserver",
          parts=[{"test": "^TestVerifC03$", "children": {"quick": 16, "thorough": 16}, "cases": {"quick": 12, "thorough": 250}}],
          timeout={"quick": 300, "thorough": 1800}, level="exploration",
@@ -297,3 +306,37 @@ register("C02", title="compaction / snapshot / restore are invisible", pkg=".",
               "evaluations = schedule steps + outputs compared; distinct = (sequence of step kinds and cut classes, index gaps)",
          floor={"quick": 1000, "thorough": 20000},
          technique="differential replay against a never-snapshotted twin; bookkeeping invariant checked at the step that commits it")
+
+
+register("C10", title="retried POST is not applied twice", pkg=".",
+         parts=[{"test": "^TestVerifC10$", "children": {"quick": 8, "thorough": 16}, "cases": {"quick": 40, "thorough": 400}}],
+         timeout={"quick": 400, "thorough": 2400}, level="exploration",
+         rule="in-process node (real stores, FSM, single-voter raft, real API on a loopback listener): clients POST, then repeat the same (session, client "
+              "message id) 1-3 times, interleaved with other sessions' traffic; also after QUIT, after an entry typed message-of-death, after snapshot+restart, "
+              "and through the API of a replica built from the same log. Oracle: the raft log holds exactly one entry per (session, id), every retry is "
+              "acknowledged, the marker is equal on node and replica, an observer receives each payload once. evaluations = retry rounds + payloads; "
+              "distinct = (where, repeats, session alive)",
+         floor={"quick": 200, "thorough": 3000},
+         technique="runtime oracle over the durable log and the delivered stream of an in-process node")
+
+
+register("C16", title="configuration updates", pkg=".",
+         parts=[{"test": "^TestVerifC16$", "children": {"quick": 8, "thorough": 16}, "cases": {"quick": 3, "thorough": 30}}],
+         timeout={"quick": 400, "thorough": 2400}, level="exploration",
+         rule="in-process node; sequences of POST /config with generated TOML (valid, syntax errors, wrong types, bad durations/hex) x revision header "
+              "(current, stale, future, missing, garbage), interleaved with sessions, OPER probes, GLINE and snapshot+restart; reference model of (revision, "
+              "configuration): accepted iff valid and current; accepted => revision+1 and GET /config decodes to the posted configuration; refused => "
+              "revision, configuration and log unchanged; a replica built from the log is configured identically. evaluations = posts + probes; "
+              "distinct = (body kind, header kind, status)",
+         floor={"quick": 150, "thorough": 2000},
+         technique="reference-model oracle over the HTTP API of an in-process node")
+register("C11", title="credentials", pkg=".",
+         parts=[{"test": "^TestVerifC11$", "children": {"quick": 2, "thorough": 8}, "cases": {"quick": 1, "thorough": 3}}],
+         timeout={"quick": 400, "thorough": 2400}, level="exploration", env={"VERIF_REPO": "/repo"},
+         rule="in-process node; every public session route x method x session state (fresh, logged in, other, deleted, never existed) x id spelling x credential "
+              "variant (none, empty, wrong, prefix, extended, upper-case, own-after-delete, another live session's) must be refused without any change of state "
+              "digest / log index / output position and without message data in the body; every private route harvested from the dispatcher source x {GET, POST} "
+              "must answer 401 without the network password (probed in bursts of 8 because of the wrong-password back-off); positive controls with the right "
+              "credentials. evaluations = requests judged; distinct = (target, route, credential, status)",
+         floor={"quick": 300, "thorough": 1500},
+         technique="exhaustive-by-construction request matrix against the real HTTP dispatchers with a state-digest oracle")
